@@ -356,7 +356,7 @@ func init() {
 		Interleave:  []string{"pco-roundtrip", "pco-parse", "errcause", "pco-helpers"},
 		Rule:        "PCO: lists of 0..20 units with any 16-bit identifier and contents of 0..255 octets: Marshal = 0x80 + (id, length, contents)*, UnMarshal(Marshal(l)) = l in order; parsing every byte string of length <= 2 (thorough 3) and mutated/truncated serialisations: no panic, and every unit of a nil-error result is exactly the (id, length, contents) found at its offset in the input, no complete unit dropped. PSI: all 65 536 two-octet bitmaps both ways, bit i = bit i%8 of octet i/8. Non-trivial = list with at least one unit / a mutated string; distinct by seed / bytes.",
 		Assumptions: []string{"LengthOfContents equals len(Contents) in well-formed lists", "an incomplete trailing header dropped without error is 'a value', not a violation"},
-		Oracles:     map[string]func(*core.Ctx, *core.Case){"cold-concurrent": coldConcurrent, "pco-roundtrip": c16Roundtrip, "pco-parse": c16Parse, "pco-sweep": c16Sweep, "psi": c16Psi, "errcause": c16ErrCause, "pco-helpers": c16Helpers},
+		Oracles:     map[string]func(*core.Ctx, *core.Case){"cold-entries": coldEntries, "cold-concurrent": coldConcurrent, "pco-roundtrip": c16Roundtrip, "pco-parse": c16Parse, "pco-sweep": c16Sweep, "psi": c16Psi, "errcause": c16ErrCause, "pco-helpers": c16Helpers},
 		Exhaustive: func(tier string) (bool, string) {
 			return true, "all 65 536 PDU session bitmaps in both directions; all PCO byte strings up to 2 (thorough 3) octets; container lists sampled"
 		},
@@ -447,6 +447,7 @@ func init() {
 			}
 		}
 		us = append(us, coldUnits(tier, "nasConvert", "pco", "misc", "shared-parse")...)
+		us = append(us, coldEntryUnits(tier, "nasConvert", "pco", "misc")...)
 		return us
 	}
 	core.Register(p)
